@@ -273,6 +273,18 @@ def rule_panic(text, relpath, table, log):
             log.rule('R-panic', 'panic! -> documented panic "%s" in %s' % (ent['msg'], fn))
         else:
             log.rule('R-panic-kept', 'panic! kept as an unreachability obligation in %s' % fn)
+    # a listed `assert!(cond)` is a deliberate consistency guard: a clean panic when it fails, no obligation (kind "assert")
+    for m in re.finditer(r'(?<![\w_])assert!\s*\(', msk):
+        close = rs.match_close(msk, m.end() - 1)
+        args = strip_markers(text[m.end():close])
+        fn = enclosing_fn_name(msk, m.start())
+        ent = table.lookup(relpath, fn, 'assert', args)
+        if ent is not None:
+            cond = rs.split_top_commas(args)[0].strip()
+            end = stmt_end(msk, close + 1)
+            nl = '\n' * text[m.start():end].count('\n')
+            edits.append((m.start(), end - m.start(), 'if !(%s) { %sgecs_panic("%s"); }' % (cond, justify(ent), ent['msg']) + nl))
+            log.rule('R-panic', 'assert! -> documented panic "%s" in %s' % (ent['msg'], fn))
     for m in re.finditer(r'\.expect\s*\(', msk):
         close = rs.match_close(msk, m.end() - 1)
         args = strip_markers(text[m.end():close])
